@@ -23,9 +23,21 @@ def gen_table(rng, nmodels=None, within_limits=True, altlocs=True, charges=True)
     template = []
     for ch in chains:
         num = rng.choice([-3, 1, 1, 5, 98, 9990])
+        used = set()
         for _ in range(rng.randint(1, 4)):
             resn = rng.choice(RESN)
             icode = rng.choice(["", "", "", "A", "B"])
+            while (num, icode) in used:          # a residue identity (chain, number, insertion code) names one residue
+                if icode == "":
+                    num += 1
+                else:
+                    icode = {"A": "B", "B": "C", "C": ""}[icode]
+                    if icode == "":
+                        num += 1
+            if num == 0:
+                num = 1
+                continue
+            used.add((num, icode))
             het = resn in ("HOH", "MG", "HEM")
             names = rng.sample(NAMES, rng.randint(1, 6))
             for nm in names:
@@ -35,9 +47,7 @@ def gen_table(rng, nmodels=None, within_limits=True, altlocs=True, charges=True)
                                      "resSeq": num, "iCode": icode, "element": element_of(nm) if rng.random() < 0.9 else "",
                                      "charge": rng.choice(["", "", "", "", "1+", "2+", "1-"]) if charges else "",
                                      "occ100": 100 if not alt else 50, "het": het})
-            num += rng.choice([1, 1, 1, 2, 0]) if icode == "" else 0
-            if num == 0:
-                num = 1
+            num += rng.choice([1, 1, 1, 2, 0])
     table = []
     serial = rng.choice([1, 1, 1, 99990 - len(template) * nmodels - 10])
     for m in range(1, nmodels + 1):
